@@ -804,20 +804,21 @@ void tickit_evloop_invoke_timers(Tickit *t)
      * of it
      */
 
-    TickitWatch *this = t->timers;
-    while(this) {
+    while(t->timers) {
+      TickitWatch *this = t->timers;
       if(timercmp(&this->timer.at, &now, >))
         break;
+
+      /* unlink before invoking, so that the callback sees (and may change) a
+       * consistent queue
+       */
+      t->timers = this->next;
 
       /* TODO: consider what info might point at */
       (*this->fn)(this->t, TICKIT_EV_FIRE|TICKIT_EV_UNBIND, NULL, this->user);
 
-      TickitWatch *next = this->next;
       free(this);
-      this = next;
     }
-
-    t->timers = this;
   }
 
   while(later) {
